@@ -1211,21 +1211,21 @@ def gen_keyring_case(rng):
 def cases(ctx):
     rng = ctx.rng
     yield "tables", [0]
-    for _ in range(ctx.n(40, 600)):
+    for _ in range(ctx.n(40, 300)):
         yield "keyring", gen_keyring_case(rng)
-    for _ in range(ctx.n(160, 4000)):
+    for _ in range(ctx.n(160, 2500)):
         yield "sign", gen_sign_case(rng)
-    for _ in range(ctx.n(380, 8000)):
+    for _ in range(ctx.n(380, 4000)):
         yield gen_validate_case(rng)
-    for _ in range(ctx.n(100, 1500)):
+    for _ in range(ctx.n(100, 1000)):
         yield "rdata-to-wire", [3, gen_rdata_fields(rng)]
         yield "rdata-from-wire", gen_rdata_wire_case(rng)
-    for _ in range(ctx.n(90, 2000)):
+    for _ in range(ctx.n(90, 1200)):
         yield "sign-message", gen_signmsg_case(rng)
-    for _ in range(ctx.n(380, 8000)):
+    for _ in range(ctx.n(380, 4000)):
         kind, c = gen_read_case(rng)
         yield "read:" + kind, c
-    for _ in range(ctx.n(40, 1000)):
+    for _ in range(ctx.n(40, 600)):
         yield from gen_stream_cases(rng)
 
 
@@ -1504,7 +1504,7 @@ def realistic_message(rng):
 def flip_sources(ctx):
     """signed messages to tamper with: (wire, key, rmac, now, running-ctx or None)"""
     rng = ctx.rng
-    n = ctx.n(30, 700)
+    n = ctx.n(30, 300)
     for i in range(n):
         k = gen_key(rng, 0)
         r = rng.random()
@@ -1585,7 +1585,7 @@ def extra(ctx):
     # multi-message: every bit of an envelope sent without TSIG is covered by the next MAC
     rng = ctx.rng
     nstream = 0
-    for _ in range(ctx.n(6, 120)):
+    for _ in range(ctx.n(6, 60)):
         envs, k, rmac, base, fudge = gen_stream(rng, n=rng.choice([3, 4]))
         envs = [envs[0]] + [(build_wire(rng), False) + e[2:] for e in envs[1:-1]] + [envs[-1]]
         ws, _ents = ref_sign_stream(envs, k, rmac)
